@@ -200,8 +200,9 @@ def run(ctx) -> Result:
         recursive = (i % 5) != 4
         hist = pipe.gen_history(rng, n_ops=rng.randint(4, 10), paced=True, burst_prob=rng.choice([0.0, 0.6]), names=NAMES19)
         one(ctx, res, hist, recursive, bool(i % 7 == 3), kind, spelling, batch)
-        if i % 3 == 0:
-            polling(ctx, res, hist, recursive, kind, spelling)
+        if i % 2 == 0:
+            # the polling backend, cycling through all path kinds and spellings independently of the native run
+            polling(ctx, res, hist, recursive, KINDS[(i // 2) % 3], SPELL[(i // 6) % 3])
     pipecheck.check_model(res, "C19", batch)
     return res
 
